@@ -3,11 +3,14 @@
 package main
 
 import (
+	"bytes"
 	"errors"
 	"fmt"
 	"io"
 	"math/big"
 	"net"
+	"runtime"
+	"strings"
 	"sync"
 	"sync/atomic"
 	"time"
@@ -16,20 +19,36 @@ import (
 	"github.com/pion/logging"
 	"github.com/pion/sctp"
 	"github.com/pion/webrtc/v4"
+	"github.com/pion/webrtc/v4/internal/verifhook"
 )
 
-// C20: DataChannel.readyState only moves forward; OnOpen/OnClose at most once;
-// Send on a channel that is not open returns an error.
+// C20: DataChannel.readyState only moves forward; once the transport is gone
+// and the channel's threads have come to rest it is closed; the handler of
+// every OnOpen/OnClose registration runs at most once; Send on a channel that
+// is not open returns an error; GracefulClose returns only when no read loop
+// is running.
 //
 // A real DataChannel of a real (never connected) PeerConnection; the
 // underlying pion/datachannel sits on a real SCTP association pair over an
-// in-process pipe, so that handleOpen, Close, readLoop and PeerConnection.Close
-// run their real code. Threads: 0 handleOpen, 1 PeerConnection.Close (then the
-// association goes away, as sctpTransport.Stop would do), 2 the remote side
-// resets the stream and aborts the association (transport gone), 3 readLoop's exit path, 4+j the j-th Close call.
+// in-process pipe, so that handleOpen, Close, GracefulClose, readLoop,
+// OnOpen/OnClose, Detach, Send and PeerConnection.Close run their real code.
+//
+// Schedule tokens: 0 handleOpen, 1 PeerConnection.Close (then the association
+// goes away, as sctpTransport.Stop would do), 2 the remote side resets the
+// stream and aborts the association (transport gone), 3 readLoop's exit path,
+// 4+j the j-th Close/GracefulClose call, 20+i the i-th concurrent OnOpen
+// registration, 30+i the i-th concurrent OnClose registration, 60 Detach,
+// 61 Send, 62 SendText.  With Fine the points dcfire.* (between onOpen/onClose
+// reading the handler and "go once.Do") and dcreg.* (between a registration's
+// store and its readyState check) are yield points too.
 
 type c20In struct {
-	NClose int   `json:"nclose"`
+	Detach bool  `json:"detach"` // SettingEngine.DetachDataChannels()
+	PreReg bool  `json:"prereg"` // OnOpen/OnClose registered before anything runs
+	Kinds  []int `json:"kinds"`  // per Close call: 0 Close, 1 GracefulClose
+	NRegO  int   `json:"nrego"`
+	NRegC  int   `json:"nregc"`
+	Fine   bool  `json:"fine"`
 	Sched  []int `json:"sched"`
 }
 
@@ -60,6 +79,19 @@ func c20Associations() (*sctp.Association, *sctp.Association, error) {
 	return a1, a2, e2
 }
 
+func c20API(detach bool) *webrtc.API {
+	se := webrtc.SettingEngine{}
+	se.SetICEMulticastDNSMode(0 + 1) // ice.MulticastDNSModeDisabled
+	se.SetNetworkTypes([]webrtc.NetworkType{webrtc.NetworkTypeUDP4})
+	se.SetInterfaceFilter(func(string) bool { return false })
+	se.SetIncludeLoopbackCandidate(false)
+	se.LoggerFactory = c20Quiet()
+	if detach {
+		se.DetachDataChannels()
+	}
+	return webrtc.NewAPI(webrtc.WithSettingEngine(se))
+}
+
 const (
 	c20Connecting = 0
 	c20Open       = 1
@@ -81,18 +113,86 @@ func c20Rank(s webrtc.DataChannelState) int {
 	return -1
 }
 
-// stepOwn steps a participant; yield points that are not ours (other
-// properties' points inside PeerConnection.Close) are passed through.
-func c20StepOwn(s *Sched, tid int) string {
-	st := stepPatient(s, tid, 5*time.Second)
-	for i := 0; i < 64 && len(st) > 7 && st[:7] == "parked:" && (len(st) < 10 || st[7:10] != "dc."); i++ {
-		st = stepPatient(s, tid, 5*time.Second)
+// ---------- goroutine inspection ----------
+
+var c20DumpBuf = make([]byte, 1<<20)
+
+func c20Dump() []byte {
+	for {
+		n := runtime.Stack(c20DumpBuf, true)
+		if n < len(c20DumpBuf) {
+			return c20DumpBuf[:n]
+		}
+		c20DumpBuf = make([]byte, 2*len(c20DumpBuf))
 	}
-	return st
+}
+
+var c20HandlerSpawners = [][]byte{
+	[]byte("created by github.com/pion/webrtc/v4.(*DataChannel).onOpen"),
+	[]byte("created by github.com/pion/webrtc/v4.(*DataChannel).OnOpen"),
+	[]byte("created by github.com/pion/webrtc/v4.(*DataChannel).onClose"),
+	[]byte("created by github.com/pion/webrtc/v4.(*DataChannel).OnClose"),
+}
+
+// c20Quiesce waits until no "go once.Do(handler)" goroutine is left: they carry
+// no yield point, so every block is followed by the handler goroutines it spawned.
+func c20Quiesce() bool {
+	deadline := time.Now().Add(5 * time.Second)
+	for {
+		d := c20Dump()
+		busy := false
+		for _, pat := range c20HandlerSpawners {
+			if bytes.Contains(d, pat) {
+				busy = true
+				break
+			}
+		}
+		if !busy {
+			return true
+		}
+		if time.Now().After(deadline) {
+			return false
+		}
+		runtime.Gosched()
+		time.Sleep(20 * time.Microsecond)
+	}
+}
+
+// c20BlockedInWait counts the GracefulClose calls that sit in their deferred
+// "<-readLoopActive".
+func c20BlockedInWait() int {
+	return bytes.Count(c20Dump(), []byte("v4.(*DataChannel).close.func1"))
+}
+
+// ---------- one case ----------
+
+type c20Thread struct {
+	tid      int  // scheduler participant
+	done     bool // participant function returned (as far as the model's blocks go)
+	graceful bool
+	expWait  bool // GracefulClose found a read loop when it set isGracefulClosed
+	waiting  bool // model position: deferred wait (the goroutine may already be through)
+	started  bool
+}
+
+func c20Valid(in c20In, t int) bool {
+	switch {
+	case t >= 0 && t <= 3:
+		return true
+	case t >= 4 && t < 20:
+		return t-4 < len(in.Kinds)
+	case t >= 20 && t < 30:
+		return t-20 < in.NRegO
+	case t >= 30 && t < 40:
+		return t-30 < in.NRegC
+	case t == 60 || t == 61 || t == 62:
+		return true
+	}
+	return false
 }
 
 func c20Run(in c20In) (V, Verdict) {
-	api := newQuietAPI(nil)
+	api := c20API(in.Detach)
 	pc, err := api.NewPeerConnection(webrtc.Configuration{})
 	if err != nil {
 		panic(err)
@@ -101,9 +201,13 @@ func c20Run(in c20In) (V, Verdict) {
 	if err != nil {
 		panic(err)
 	}
-	var opens, closes atomic.Int32
-	d.OnOpen(func() { opens.Add(1) })
-	d.OnClose(func() { closes.Add(1) })
+	opens := make([]atomic.Int32, 1+in.NRegO)
+	closes := make([]atomic.Int32, 1+in.NRegC)
+	if in.PreReg {
+		d.OnOpen(func() { opens[0].Add(1) })
+		d.OnClose(func() { closes[0].Add(1) })
+	}
+	d.VerifAttachTransport(pc.SCTP()) // as open() would have done before handleOpen
 	sendBefore := d.Send([]byte{1}) // connecting: must be refused
 
 	a1, a2, err := c20Associations()
@@ -120,15 +224,46 @@ func c20Run(in c20In) (V, Verdict) {
 		panic(err)
 	}
 
-	s := NewSched().Only("dc.")
+	s := NewSched()
+	if in.Fine {
+		s.Only("dc.", "dcfire.", "dcreg.")
+	} else {
+		s.Only("dc.")
+	}
 	tOpen := s.Add("open", func() { d.VerifHandleOpen(under, false, true) })
 	tPC := s.Add("pcclose", func() { _ = pc.Close(); _ = a1.Close() })
 	// the remote side closes the channel and goes away: the transport is gone
 	tRem := s.Add("remote", func() { _ = remote.Close(); a2.Abort("") })
-	tRL := s.AddSpawned("readloop", "dc.rl.")
-	tids := []int{tOpen, tPC, tRem, tRL}
-	for j := 0; j < in.NClose; j++ {
-		tids = append(tids, s.Add(fmt.Sprintf("close%d", j), func() { _ = d.Close() }))
+	// the read loop is a goroutine of the code under test: it is recognised at its
+	// first dc.rl.* point and from then on attributed by goroutine id
+	tRL := s.AddSpawned("readloop", "\x00")
+	verifhook.Install(func(name string) {
+		if strings.HasPrefix(name, "dc.rl.") {
+			s.mu.Lock()
+			if _, known := s.byGoid[goid()]; !known {
+				s.byGoid[goid()] = tRL
+			}
+			s.mu.Unlock()
+		}
+		s.point(name)
+	})
+	closers := make([]*c20Thread, len(in.Kinds))
+	for j, k := range in.Kinds {
+		if k == 1 {
+			closers[j] = &c20Thread{graceful: true, tid: s.Add(fmt.Sprintf("gclose%d", j), func() { _ = d.GracefulClose() })}
+		} else {
+			closers[j] = &c20Thread{tid: s.Add(fmt.Sprintf("close%d", j), func() { _ = d.Close() })}
+		}
+	}
+	regO := make([]int, in.NRegO)
+	for i := range regO {
+		k := i + 1
+		regO[i] = s.Add(fmt.Sprintf("onopen%d", i), func() { d.OnOpen(func() { opens[k].Add(1) }) })
+	}
+	regC := make([]int, in.NRegC)
+	for i := range regC {
+		k := i + 1
+		regC[i] = s.Add(fmt.Sprintf("onclose%d", i), func() { d.OnClose(func() { closes[k].Add(1) }) })
 	}
 	closedSched := false
 	cleanup := func() {
@@ -148,20 +283,30 @@ func c20Run(in c20In) (V, Verdict) {
 		case <-waited:
 		case <-time.After(5 * time.Second):
 		}
+		c20Quiesce()
 	}
 	defer cleanup()
 
 	var sched []int
 	for _, t := range in.Sched {
-		if t >= 0 && t < 4+in.NClose {
+		if c20Valid(in, t) {
 			sched = append(sched, t)
 		}
 	}
-	sched = append(sched, 0, 0)
-	for j := 0; j < in.NClose; j++ {
+	sched = append(sched, 0, 0, 0)
+	for j := range in.Kinds {
 		sched = append(sched, 4+j, 4+j, 4+j)
 	}
-	sched = append(sched, 3)
+	sched = append(sched, 3, 3)
+	for j := range in.Kinds {
+		sched = append(sched, 4+j)
+	}
+	for i := 0; i < in.NRegO; i++ {
+		sched = append(sched, 20+i, 20+i)
+	}
+	for i := 0; i < in.NRegC; i++ {
+		sched = append(sched, 30+i, 30+i)
+	}
 
 	verdict := Pass("", false)
 	fail := func(sig, what string) {
@@ -169,141 +314,353 @@ func c20Run(in c20In) (V, Verdict) {
 			verdict = Fail(sig, what)
 		}
 	}
+	names := []string{"connecting", "open", "closing", "closed"}
 	flags := new(big.Int)
 	var obs []int
 	prev := c20Rank(d.ReadyState())
-	goneTriggered, rlDone, closeCalled, pcClosed := false, false, false, false
-	closeFinished := make([]bool, in.NClose)
-	closeSteps := make([]int, in.NClose)        // enabled blocks of each Close so far
-	checkedClosed := make([]bool, in.NClose)     // its closed-check ran when the state already was closed
-	for step, t := range sched {
-		if t == 3 { // readLoop's exit path runs once its read has failed
-			if rlDone || !goneTriggered || !d.VerifReadLoopStarted() {
-				continue // disabled; nothing to release
-			}
-			if !waitParked(s, tRL, 5*time.Second) {
-				fail("readloop-did-not-notice-the-closed-transport", fmt.Sprintf("trace %v", s.Trace))
-				continue
-			}
-		}
-		st := c20StepOwn(s, tids[t])
-		if st == "disabled" {
-			continue
-		}
-		if st == "running" {
-			fail("thread-blocked-unexpectedly", fmt.Sprintf("thread %d; trace %v", t, s.Trace))
-		}
-		flags.SetBit(flags, step, 1)
+	goneTriggered, pcClosed, closeCalled, detached := false, false, false, false
+	openDone := false
+	rlStage := 0 // 0 not at its exit path yet, 1 parked between the store and the handler spawn, 2 returned
+	closeSteps := make([]int, len(in.Kinds))
+	checkedClosed := make([]bool, len(in.Kinds))
+	sendClass := func(before int, err error) int {
 		switch {
+		case before != c20Open && errors.Is(err, io.ErrClosedPipe):
+			return 0
+		case before != c20Open:
+			return 3
+		case goneTriggered:
+			return 9
+		case errors.Is(err, sctp.ErrStreamClosed):
+			return 1
+		case err == nil:
+			return 2
+		}
+		return 3
+	}
+	waitingCount := func() int {
+		n := 0
+		for _, c := range closers {
+			if c.waiting && !c.done {
+				n++
+			}
+		}
+		return n
+	}
+	// step a participant that may block in GracefulClose's deferred wait
+	stepCloser := func(c *c20Thread) string {
+		st := s.Step(c.tid)
+		if st != "running" {
+			return st
+		}
+		deadline := time.Now().Add(5 * time.Second)
+		for time.Now().Before(deadline) {
+			if cur := s.Status(c.tid); cur != "running" {
+				return cur
+			}
+			if c.graceful && c20BlockedInWait() > waitingCount() {
+				return "blocked"
+			}
+			time.Sleep(100 * time.Microsecond)
+		}
+		return "running"
+	}
+
+	for step, t := range sched {
+		enabled := false
+		observed := -1 // a Send / Detach result instead of the readyState
+		switch {
+		case t == 0:
+			st := stepPatient(s, tOpen, 5*time.Second)
+			if st == "disabled" {
+				break
+			}
+			enabled = true
+			if st == "running" {
+				fail("thread-blocked-unexpectedly", fmt.Sprintf("handleOpen; trace %v", s.Trace))
+			}
+			openDone = st == "finished"
 		case t == 1:
+			st := stepPatient(s, tPC, 5*time.Second)
+			if st == "disabled" {
+				break
+			}
+			enabled = true
+			if st != "finished" {
+				fail("thread-blocked-unexpectedly", fmt.Sprintf("PeerConnection.Close: %s; trace %v", st, s.Trace))
+			}
 			goneTriggered, pcClosed = true, true
 		case t == 2:
+			st := stepPatient(s, tRem, 5*time.Second)
+			if st == "disabled" {
+				break
+			}
+			enabled = true
 			goneTriggered = true
 		case t == 3:
-			rlDone = true
-		case t >= 4:
-			closeCalled = true
-			if st == "finished" {
-				closeFinished[t-4] = true
+			if rlStage == 2 {
+				break
+			}
+			if rlStage == 0 {
+				// the exit path runs once the read has failed
+				if !goneTriggered || !d.VerifReadLoopStarted() {
+					break
+				}
+				if !waitParked(s, tRL, 5*time.Second) {
+					fail("readloop-did-not-notice-the-closed-transport", fmt.Sprintf("trace %v", s.Trace))
+					break
+				}
+			}
+			st := stepPatient(s, tRL, 5*time.Second)
+			if st == "disabled" {
+				break
+			}
+			enabled = true
+			switch {
+			case st == "finished":
+				rlStage = 2
+			case strings.HasPrefix(st, "parked:dcfire."):
+				rlStage = 1
+			default:
+				fail("thread-blocked-unexpectedly", fmt.Sprintf("readLoop: %s; trace %v", st, s.Trace))
+			}
+		case t >= 4 && t < 20:
+			c := closers[t-4]
+			if c.done {
+				break
+			}
+			if c.waiting {
+				if rlStage != 2 {
+					if s.Status(c.tid) == "finished" {
+						fail("gracefulclose-returned-before-the-read-loop-exited", fmt.Sprintf("close call %d; trace %v", t-4, s.Trace))
+					}
+					break
+				}
+				// the read loop has exited: the deferred wait is over
+				deadline := time.Now().Add(5 * time.Second)
+				for s.Status(c.tid) != "finished" && time.Now().Before(deadline) {
+					time.Sleep(50 * time.Microsecond)
+				}
+				if s.Status(c.tid) != "finished" {
+					fail("gracefulclose-still-blocked-after-the-read-loop-exited", fmt.Sprintf("close call %d; trace %v", t-4, s.Trace))
+				}
+				enabled, c.done, c.waiting = true, true, false
+				break
+			}
+			if !c.started {
+				c.started = true
+				c.expWait = c.graceful && d.VerifReadLoopStarted()
+			}
+			st := stepCloser(c)
+			if st == "disabled" {
+				break
+			}
+			enabled, closeCalled = true, true
+			switch {
+			case st == "finished":
+				if c.expWait {
+					if rlStage != 2 {
+						fail("gracefulclose-returned-before-the-read-loop-exited", fmt.Sprintf("close call %d; trace %v", t-4, s.Trace))
+					}
+					c.waiting = true // the model takes the (now free) wait as a block of its own
+				} else {
+					c.done = true
+				}
+			case st == "blocked":
+				if !c.expWait || rlStage == 2 {
+					fail("gracefulclose-blocked-without-a-running-read-loop", fmt.Sprintf("close call %d; trace %v", t-4, s.Trace))
+				}
+				c.waiting = true
+			case st == "running":
+				fail("thread-blocked-unexpectedly", fmt.Sprintf("close call %d; trace %v", t-4, s.Trace))
+			}
+		case t >= 20 && t < 40:
+			tid := 0
+			if t < 30 {
+				tid = regO[t-20]
+			} else {
+				tid = regC[t-30]
+			}
+			st := stepPatient(s, tid, 5*time.Second)
+			if st == "disabled" {
+				break
+			}
+			enabled = true
+			if st == "running" {
+				fail("thread-blocked-unexpectedly", fmt.Sprintf("registration %d; trace %v", t, s.Trace))
+			}
+		case t == 60:
+			enabled = true
+			_, err := d.Detach()
+			switch {
+			case err == nil:
+				observed, detached = 22, true
+			case strings.Contains(err.Error(), "not opened yet"): // errDetachBeforeOpened
+				observed = 21
+			default:
+				observed = 20
+			}
+			if (err == nil) != (in.Detach && d.VerifHaveDataChannel()) {
+				fail("detach-result-unexpected", fmt.Sprintf("Detach returned %v", err))
+			}
+		case t == 61 || t == 62:
+			enabled = true
+			before := c20Rank(d.ReadyState())
+			var err error
+			if t == 61 {
+				err = d.Send([]byte{7})
+			} else {
+				err = d.SendText("x")
+			}
+			observed = 10 + sendClass(before, err)
+			// direct oracle, Send clause
+			if before != c20Open && err == nil {
+				fail("send-accepted-while-not-open", fmt.Sprintf("Send returned nil in state %s", names[before]))
+			}
+			if before != c20Open && !errors.Is(err, io.ErrClosedPipe) {
+				fail("send-error-is-not-closed-pipe", fmt.Sprintf("Send returned %v in state %s", err, names[before]))
 			}
 		}
+		if !enabled {
+			continue
+		}
+		flags.SetBit(flags, step, 1)
+		if !c20Quiesce() {
+			fail("handler-goroutine-did-not-finish", "a once.Do goroutine is still there after 5 s")
+		}
 		cur := c20Rank(d.ReadyState())
-		obs = append(obs, cur)
-		if t >= 4 {
+		if observed >= 0 {
+			obs = append(obs, observed)
+		} else {
+			obs = append(obs, cur)
+		}
+		if t >= 4 && t < 20 {
 			closeSteps[t-4]++
 			if closeSteps[t-4] == 2 {
 				checkedClosed[t-4] = prev == c20Closed
 			}
 		}
-		if (t == 1 || t == 3) && cur != c20Closed {
-			fail("teardown-did-not-store-closed", fmt.Sprintf("step %d thread %d (1 PeerConnection.Close, 3 readLoop exit) left readyState %d", step, t, cur))
+		// direct oracle: the teardown paths store closed
+		if t == 1 && !detached && cur != c20Closed {
+			fail("teardown-did-not-store-closed", fmt.Sprintf("step %d: PeerConnection.Close left readyState %s", step, names[cur]))
 		}
-		// direct oracle, clause 1: readyState only moves forward
+		if t == 1 && detached && cur != c20Closed {
+			fail("detached-channel-never-reaches-closed", fmt.Sprintf("step %d: PeerConnection.Close after Detach() left readyState %s", step, names[cur]))
+		}
+		if t == 3 && cur != c20Closed {
+			fail("teardown-did-not-store-closed", fmt.Sprintf("step %d: the read loop's exit path left readyState %s", step, names[cur]))
+		}
+		// direct oracle: readyState only moves forward
 		if cur < prev {
-			names := []string{"connecting", "open", "closing", "closed"}
 			switch {
-			case t >= 4 && checkedClosed[t-4]:
+			case t >= 4 && t < 20 && checkedClosed[t-4]:
 				fail("close-stored-closing-although-it-saw-closed",
 					fmt.Sprintf("step %d (Close): readyState %s -> %s, and the check ran after closed was stored", step, names[prev], names[cur]))
-			case t >= 4:
+			case t >= 4 && t < 20:
 				fail("close-stored-closing-after-its-closed-check-went-stale",
 					fmt.Sprintf("step %d (Close): readyState %s -> %s", step, names[prev], names[cur]))
 			case t == 0:
 				fail("handleopen-stored-open-after-a-later-state",
 					fmt.Sprintf("step %d (handleOpen): readyState %s -> %s", step, names[prev], names[cur]))
 			default:
-				fail("readystate-moved-backwards", fmt.Sprintf("step %d thread %d: %s -> %s", step, t, names[prev], names[cur]))
+				fail("readystate-moved-backwards", fmt.Sprintf("step %d token %d: %s -> %s", step, t, names[prev], names[cur]))
 			}
 		}
 		prev = cur
 	}
-	// handler goroutines ("go once.Do(...)") carry no yield point: wait until the counts are stable
-	stable, last := 0, [2]int32{-1, -1}
-	for i := 0; i < 400 && stable < 6; i++ {
-		now := [2]int32{opens.Load(), closes.Load()}
-		if now == last {
-			stable++
-		} else {
-			stable, last = 0, now
-		}
-		time.Sleep(500 * time.Microsecond)
-	}
 	final := c20Rank(d.ReadyState())
 	sendErr := d.Send([]byte{2})
+	finalSend := sendClass(final, sendErr)
 	closedSched = true
 	s.Close()
 
-	// clause 2: after Close has returned and the transport is gone, the channel is closed
-	allClosed := in.NClose > 0
-	for _, f := range closeFinished {
-		allClosed = allClosed && f
-	}
-	if closeCalled && allClosed && goneTriggered && final != c20Closed {
-		switch {
-		case pcClosed || rlDone: // a stale store is the only way to leave closed
-			fail("close-stored-closing-after-its-closed-check-went-stale", fmt.Sprintf("final readyState %d after Close and transport gone", final))
-		case final == c20Open:
-			fail("handleopen-stored-open-after-a-later-state", "Close returned, the remote closed, readyState stays open (no read loop was started)")
-		default:
-			fail("closed-before-open-stays-closing", "Close returned while connecting, the channel opened and the remote closed: readyState stays closing (no read loop), though OnClose fired")
+	// direct oracle: the transport is gone and the channel's threads are at rest: closed
+	atRest := openDone && (rlStage == 2 || !d.VerifReadLoopStarted())
+	for _, c := range closers {
+		if c.started && !c.done {
+			atRest = false
 		}
 	}
-	// clause 3: handlers at most once per registration
-	if opens.Load() > 1 {
-		fail("onopen-ran-more-than-once", fmt.Sprintf("%d invocations", opens.Load()))
+	if goneTriggered && atRest && final != c20Closed {
+		switch {
+		case in.Detach:
+			fail("detached-channel-never-reaches-closed", fmt.Sprintf("detached channel, transport gone, everything at rest: readyState %s", names[final]))
+		case pcClosed || rlStage == 2: // a stale store is the only way to leave closed
+			fail("close-stored-closing-after-its-closed-check-went-stale", fmt.Sprintf("final readyState %s after the teardown", names[final]))
+		case final == c20Open:
+			fail("handleopen-stored-open-after-a-later-state", "the remote closed, readyState stays open (no read loop was started)")
+		case closeCalled:
+			fail("closed-before-open-stays-closing", "Close was called before or while the channel opened and the remote closed: readyState stays closing (no read loop)")
+		default:
+			fail("transport-gone-but-not-closed", fmt.Sprintf("final readyState %s", names[final]))
+		}
 	}
-	if closes.Load() > 1 {
-		fail("onclose-ran-more-than-once", fmt.Sprintf("%d invocations", closes.Load()))
+	// direct oracle: every registration's handler at most once
+	for k := range opens {
+		if n := opens[k].Load(); n > 1 {
+			fail("onopen-handler-ran-twice-for-one-registration", fmt.Sprintf("registration %d: %d invocations", k, n))
+		}
 	}
-	// clause 4: Send on a channel that is not open returns an error
+	for k := range closes {
+		if n := closes[k].Load(); n > 1 {
+			fail("onclose-handler-ran-twice-for-one-registration", fmt.Sprintf("registration %d: %d invocations", k, n))
+		}
+	}
+	// direct oracle: Send on a channel that is not open returns an error
 	if sendBefore == nil {
-		fail("send-accepted-while-connecting", "Send returned nil in state connecting")
+		fail("send-accepted-while-not-open", "Send returned nil in state connecting")
 	}
 	if final != c20Open && sendErr == nil {
-		fail("send-accepted-while-not-open", fmt.Sprintf("Send returned nil in state %d", final))
+		fail("send-accepted-while-not-open", fmt.Sprintf("Send returned nil in state %s", names[final]))
 	}
-	closedPipe := final != c20Open && errors.Is(sendErr, io.ErrClosedPipe)
 	if verdict.OK {
 		distinct := map[int]bool{}
 		for _, x := range obs {
-			distinct[x] = true
+			if x < 10 {
+				distinct[x] = true
+			}
 		}
 		verdict.NonTrivial = len(distinct) >= 2
-		verdict.Class = fmt.Sprintf("closers%d/pc=%v/remote=%v/rl=%v/final%d", in.NClose, pcClosed, goneTriggered && !pcClosed, rlDone, final)
+		g := 0
+		for _, k := range in.Kinds {
+			g += k
+		}
+		verdict.Class = fmt.Sprintf("close%d/graceful%d/regs%d+%d/fine=%v/detach=%v/pc=%v/remote=%v/final%d",
+			len(in.Kinds)-g, g, in.NRegO, in.NRegC, in.Fine, in.Detach, pcClosed, goneTriggered && !pcClosed, final)
 	}
-	return VL{c20BigZ(flags.String()), VInts(obs), VZ(int64(opens.Load())), VZ(int64(closes.Load())), VB(closedPipe)}, verdict
+	oc := make([]int, len(opens))
+	for k := range opens {
+		oc[k] = int(opens[k].Load())
+	}
+	cc := make([]int, len(closes))
+	for k := range closes {
+		cc[k] = int(closes[k].Load())
+	}
+	return VL{c20BigZ(flags.String()), VInts(obs), VInts(oc), VInts(cc), VZ(int64(finalSend))}, verdict
 }
 
 type c20BigZ string
 
 func (z c20BigZ) Coq() string { return "VZ " + string(z) }
 
+func c20B(b bool) string {
+	if b {
+		return "1"
+	}
+	return "0"
+}
+
 func c20Coq(in c20In) string {
 	ss := make([]string, len(in.Sched))
 	for i, x := range in.Sched {
 		ss[i] = CoqZ(int64(x))
 	}
-	return fmt.Sprintf("(%d, %s)", in.NClose, CoqList(ss))
+	ks := make([]string, len(in.Kinds))
+	for i, x := range in.Kinds {
+		ks[i] = CoqZ(int64(x))
+	}
+	return fmt.Sprintf("(%s, %s, %s, %d, %d, %s, %s)", c20B(in.Detach), c20B(in.PreReg), CoqList(ks),
+		in.NRegO, in.NRegC, c20B(in.Fine), CoqList(ss))
 }
 
 // all interleavings of the given per-thread step counts
@@ -335,61 +692,123 @@ func c20Interleavings(threads []int, counts []int) [][]int {
 	return out
 }
 
+func c20Prefixed(prefix []int, l [][]int) [][]int {
+	out := make([][]int, len(l))
+	for i, x := range l {
+		out[i] = append(append([]int{}, prefix...), x...)
+	}
+	return out
+}
+
 func init() {
+	plain := func(kinds []int, sch []int) c20In { return c20In{PreReg: true, Kinds: kinds, Sched: sch} }
 	Register(Spec[c20In]{
 		ID: "C20", Suite: "sched", CoqImports: []string{"Check.C20"},
-		CoqType: "Z * list Z", CoqRun: "Check.C20.run_sched",
-		Quick: 120, Thorough: 5000,
+		CoqType: "Z * Z * list Z * Z * Z * Z * list Z", CoqRun: "Check.C20.run_sched",
+		Quick: 150, Thorough: 6000,
 		Corpus: func() []c20In {
 			return []c20In{
+				// the recorded windows (they pass since the repairs)
 				// Close parked between its closed-check and the store; PeerConnection.Close stores closed; release
-				{1, []int{4, 4, 1, 4}},
+				plain([]int{0}, []int{4, 4, 1, 4}),
 				// the same with the read loop: open, Close passes its check, remote closes, readLoop stores closed, Close stores closing
-				{1, []int{0, 0, 4, 4, 2, 3, 4}},
+				plain([]int{0}, []int{0, 0, 4, 4, 2, 3, 4}),
 				// handleOpen parked before storing open; Close runs completely; release
-				{1, []int{0, 4, 4, 4, 0}},
+				plain([]int{0}, []int{0, 4, 4, 4, 0}),
 				// handleOpen parked; PeerConnection.Close; release
-				{0, []int{0, 1, 0, 3}},
+				plain(nil, []int{0, 1, 0, 3}),
 				// Close while connecting, then the channel opens and the remote closes
-				{1, []int{4, 4, 4, 0, 2}},
+				plain([]int{0}, []int{4, 4, 4, 0, 2}),
+				// Close between the two halves of handleOpen (no read loop is started)
+				plain([]int{0}, []int{0, 4, 0, 4, 4, 2}),
 				// natural life: open, Close, remote answers, readLoop exits
-				{1, []int{0, 0, 4, 4, 4, 2, 3}},
-				{1, []int{0, 0, 4, 4, 4, 1, 3}},
+				plain([]int{0}, []int{0, 0, 4, 4, 4, 2, 3}),
+				plain([]int{0}, []int{0, 0, 4, 4, 4, 1, 3}),
+				// GracefulClose waits for the read loop
+				plain([]int{1}, []int{0, 0, 4, 4, 4, 61, 2, 3, 4}),
+				// one registration, handler fired from the registration and from handleOpen,
+				// a second registration in between (fired f1 twice before the repair)
+				{NRegO: 2, Fine: true, Sched: []int{20, 0, 0, 20, 21, 0, 21}},
+				{NRegC: 2, Fine: true, Sched: []int{0, 0, 0, 30, 2, 3, 30, 31, 3, 31}},
+				// detached channel: Close, transport gone: stays closing; Detach, then PeerConnection.Close
+				{Detach: true, PreReg: true, Kinds: []int{0}, Sched: []int{0, 0, 61, 4, 4, 4, 62, 2}},
+				{Detach: true, PreReg: true, Kinds: []int{0}, Sched: []int{60, 0, 0, 60, 4, 4, 4, 1}},
 			}
 		},
 		Exhaustive: func() []c20In {
 			var out []c20In
 			// handleOpen (2 blocks) x Close (3 blocks) x PeerConnection.Close (1)
 			for _, sch := range c20Interleavings([]int{0, 4, 1}, []int{2, 3, 1}) {
-				out = append(out, c20In{1, sch})
+				out = append(out, plain([]int{0}, sch))
 			}
-			// handleOpen x Close x remote close, readLoop exit placed everywhere after
+			// handleOpen x Close x remote close, readLoop exit placed everywhere
 			for _, sch := range c20Interleavings([]int{0, 4, 2, 3}, []int{2, 3, 1, 1}) {
-				out = append(out, c20In{1, sch})
+				out = append(out, plain([]int{0}, sch))
+			}
+			// GracefulClose against handleOpen and the remote close (the read loop's exit follows)
+			for _, sch := range c20Interleavings([]int{0, 4, 2}, []int{2, 3, 1}) {
+				out = append(out, plain([]int{1}, append(sch, 3, 4)))
+			}
+			// channel open: GracefulClose x Close x remote close x readLoop exit
+			for i, sch := range c20Prefixed([]int{0, 0}, c20Interleavings([]int{4, 5, 2, 3}, []int{3, 3, 1, 1})) {
+				if i%8 == 0 { // every 8th of the 1120
+					out = append(out, plain([]int{1, 0}, sch))
+				}
+			}
+			// OnOpen registration (2 blocks) x handleOpen (3 blocks with the fire point) x a second registration
+			for _, sch := range c20Interleavings([]int{20, 0, 21}, []int{2, 3, 2}) {
+				out = append(out, c20In{NRegO: 2, Fine: true, Sched: sch})
+			}
+			// channel open, transport gone: OnClose registration x readLoop exit (2 blocks) x a second registration
+			for _, sch := range c20Prefixed([]int{0, 0, 0, 2}, c20Interleavings([]int{30, 3, 31}, []int{2, 2, 2})) {
+				out = append(out, c20In{NRegC: 2, Fine: true, Sched: sch})
+			}
+			// closed while opening: OnClose registration x Close x handleOpen (fire point)
+			for _, sch := range c20Interleavings([]int{30, 4, 0}, []int{2, 1, 3}) {
+				out = append(out, c20In{PreReg: true, NRegC: 1, Kinds: []int{0}, Fine: true, Sched: sch})
+			}
+			// detached: handleOpen x Detach x PeerConnection.Close, and x Close
+			for _, sch := range c20Interleavings([]int{0, 60, 1}, []int{2, 1, 1}) {
+				out = append(out, c20In{Detach: true, PreReg: true, Sched: sch})
+			}
+			for _, sch := range c20Interleavings([]int{0, 60, 4}, []int{2, 1, 3}) {
+				out = append(out, c20In{Detach: true, PreReg: true, Kinds: []int{0}, Sched: append(sch, 2)})
 			}
 			return out
 		},
 		Gen: func(r *Rand, i int) c20In {
-			n := r.Range(0, 2)
-			l := r.Range(2, 12)
-			sch := make([]int, l)
-			for j := range sch {
+			in := c20In{PreReg: r.Chance(2, 3), Fine: r.Chance(1, 2), Detach: r.Chance(1, 8)}
+			n := r.Range(0, 3)
+			for j := 0; j < n; j++ {
+				in.Kinds = append(in.Kinds, r.Intn(2))
+			}
+			in.NRegO, in.NRegC = r.Range(0, 2), r.Range(0, 2)
+			l := r.Range(2, 16)
+			for j := 0; j < l; j++ {
 				switch {
 				case r.Chance(1, 4):
-					sch[j] = 0
-				case r.Chance(1, 8):
-					sch[j] = 1
+					in.Sched = append(in.Sched, 0)
+				case r.Chance(1, 10):
+					in.Sched = append(in.Sched, 1)
 				case r.Chance(1, 7):
-					sch[j] = 2
+					in.Sched = append(in.Sched, 2)
 				case r.Chance(1, 5):
-					sch[j] = 3
-				case n > 0:
-					sch[j] = 4 + r.Intn(n)
+					in.Sched = append(in.Sched, 3)
+				case n > 0 && r.Chance(1, 2):
+					in.Sched = append(in.Sched, 4+r.Intn(n))
+				case in.NRegO > 0 && r.Chance(1, 3):
+					in.Sched = append(in.Sched, 20+r.Intn(in.NRegO))
+				case in.NRegC > 0 && r.Chance(1, 3):
+					in.Sched = append(in.Sched, 30+r.Intn(in.NRegC))
+				case r.Chance(1, 4):
+					in.Sched = append(in.Sched, 61+r.Intn(2))
+				case in.Detach && r.Chance(1, 2):
+					in.Sched = append(in.Sched, 60)
 				default:
-					sch[j] = r.Intn(4)
+					in.Sched = append(in.Sched, r.Intn(4))
 				}
 			}
-			return c20In{n, sch}
+			return in
 		},
 		Shrink: func(in c20In) []c20In {
 			var out []c20In
